@@ -208,15 +208,86 @@ def F(base, *names):
     return e
 
 
+def _strip_angle(s):
+    """Remove every balanced <...> group (generic arguments)."""
+    out = []
+    d = 0
+    i = 0
+    while i < len(s):
+        c = s[i]
+        if c == "<":
+            d += 1
+        elif c == ">" and i > 0 and s[i - 1] != "-":
+            d -= 1
+        elif d == 0:
+            out.append(c)
+        i += 1
+    return "".join(out)
+
+
+_CALLEE_CACHE = {}
+
+
+def callee_names(c):
+    """Alternative names of a callee path: the path itself, and for `<T as Trait<..>>::m` /
+    `path::<impl Trait for T>::m` also `Trait::m` (generics stripped) and `T::m`."""
+    r = _CALLEE_CACHE.get(c)
+    if r is not None:
+        return r
+    names = [c]
+    if c.startswith("<") and " as " in c:
+        # <T as Trait>::method
+        d = 0
+        end = None
+        for i, ch in enumerate(c):
+            if ch == "<":
+                d += 1
+            elif ch == ">" and c[i - 1] != "-":
+                d -= 1
+                if d == 0:
+                    end = i
+                    break
+        if end is not None:
+            inner = c[1:end]
+            rest = c[end + 1:]
+            # split at top-level " as "
+            d = 0
+            k = None
+            for i in range(len(inner)):
+                if inner[i] == "<":
+                    d += 1
+                elif inner[i] == ">" and inner[i - 1] != "-":
+                    d -= 1
+                elif d == 0 and inner.startswith(" as ", i):
+                    k = i
+                    break
+            if k is not None:
+                t, tr = inner[:k], inner[k + 4:]
+                names.append(_strip_angle(tr) + rest)
+                names.append(_strip_angle(t) + rest)
+    if "<impl " in c:
+        i = c.index("<impl ")
+        j = c.rindex(">::")
+        inner = c[i + 6:j]
+        rest = c[j + 1:]
+        if " for " in inner:
+            tr, t = inner.split(" for ", 1)
+            names.append(_strip_angle(tr) + rest)
+            names.append(_strip_angle(t) + rest)
+        else:
+            names.append(_strip_angle(inner) + rest)
+    _CALLEE_CACHE[c] = names
+    return names
+
+
 def callee_matches(c, suffix):
-    """`suffix` (e.g. 'Iterator::next', 'SampledLFU::update') matches callee path c when c ends
-    with it at a path-segment boundary; `<T as Trait>::m` also matches 'Trait::m'."""
+    """`suffix` (e.g. 'Iterator::next', 'SampledLFU::update') matches callee path c when one of
+    c's names ends with it at a path-segment boundary."""
     if not c:
         return False
-    c2 = c.replace(">::", "::")
-    if c2 == suffix or c == suffix:
-        return True
-    for cc in (c, c2):
+    for cc in callee_names(c):
+        if cc == suffix:
+            return True
         if cc.endswith(suffix):
             pre = cc[: -len(suffix)]
             if pre.endswith("::") or pre.endswith(" ") or pre.endswith("<"):
@@ -232,3 +303,202 @@ def strip_casts(e):
     while isinstance(e, tuple) and e and e[0] == "cast":
         e = e[2]
     return e
+
+
+# ----------------------------------------------------------------------------------------
+# closures: binding captured variables to the parent's expressions
+# ----------------------------------------------------------------------------------------
+
+def closure_creation(parent, cb):
+    """The aggregate in `parent` that builds closure body cb: -> ('closure', def, captures)."""
+    for bi in parent.live_blocks():
+        for si, st in enumerate(parent.blocks[bi]["stmts"]):
+            if st["k"] == "assign" and st["rv"]["k"] == "agg" and st["rv"].get("def") == cb.path:
+                return parent.rvalue_expr(st["rv"], True)
+    return None
+
+
+def closure_env(parent, cb):
+    """Mapping ('var', captured name) -> parent expression (expanded), for closure cb created in
+    parent.  Captures of mutable parent variables stay symbolic ('var', name)."""
+    ce = closure_creation(parent, cb)
+    env = {}
+    if ce is None:
+        return env
+    for dp, name in cb.debug_places:
+        if dp["l"] != 1:
+            continue
+        idx = None
+        for pr in dp["p"]:
+            if pr.startswith("."):
+                idx = int(pr[1:].partition(":")[0])
+                break
+        if idx is not None and idx < len(ce[2]):
+            env[("var", name)] = norm(ce[2][idx])
+    return env
+
+
+def parent_of(facts, cb):
+    c = facts.by_path.get(cb.raw["parent"], [])
+    return c[0] if len(c) == 1 else None
+
+
+def in_parent_terms(facts, cb, e):
+    """Rewrite closure-body expression e with captured variables replaced by the (transitively
+    expanded) expressions of the enclosing function."""
+    cur = cb
+    e = norm(e)
+    for _ in range(6):
+        par = parent_of(facts, cur)
+        if par is None:
+            break
+        env = closure_env(par, cur)
+        if env:
+            e = norm(subst(e, env))
+        if not par.is_closure:
+            break
+        cur = par
+    return e
+
+
+# ----------------------------------------------------------------------------------------
+# finite-domain evaluation of extracted expressions (constant folding, u64/usize wrapping)
+# ----------------------------------------------------------------------------------------
+
+M64 = (1 << 64) - 1
+
+
+class CannotEval(Exception):
+    pass
+
+
+def width_of(ty):
+    return {"u8": 8, "u16": 16, "u32": 32, "u64": 64, "usize": 64, "i8": 8, "i16": 16, "i32": 32, "i64": 64, "isize": 64, "bool": 1}.get(ty, 64)
+
+
+def eval_expr(e, env):
+    """Evaluate e (non-negative integer semantics, 64-bit wrapping) under env: expr -> int."""
+    e = norm(e)
+    return _ev(e, env)
+
+
+def _ev(e, env):
+    if e in env:
+        return env[e]
+    k = e[0]
+    if k == "const" and isinstance(e[1], int):
+        return e[1] & M64
+    if k == "cast":
+        v = _ev(e[2], env)
+        return v & ((1 << width_of(e[1])) - 1)
+    if k == "bin":
+        a = _ev(e[2], env)
+        b = _ev(e[3], env)
+        op = e[1]
+        if op == "Add":
+            return (a + b) & M64
+        if op == "Sub":
+            return (a - b) & M64
+        if op == "Mul":
+            return (a * b) & M64
+        if op == "Div":
+            if b == 0:
+                raise CannotEval("div by zero")
+            return a // b
+        if op == "Rem":
+            if b == 0:
+                raise CannotEval("rem by zero")
+            return a % b
+        if op == "Shl":
+            return (a << (b & 63)) & M64
+        if op == "Shr":
+            return a >> (b & 63)
+        if op == "BitAnd":
+            return a & b
+        if op == "BitOr":
+            return a | b
+        if op == "BitXor":
+            return a ^ b
+        if op == "Lt":
+            return 1 if a < b else 0
+        if op == "Eq":
+            return 1 if a == b else 0
+    if k == "un" and e[1] == "Not":
+        return 0 if _ev(e[2], env) else 1
+    if k == "call" and (callee_matches(e[1], "Ord::max") or callee_matches(e[1], "Ord::min")) and len(e[2]) == 2:
+        a, b = _ev(e[2][0], env), _ev(e[2][1], env)
+        return max(a, b) if e[1].endswith("max") else min(a, b)
+    if k == "call" and callee_matches(e[1], "next_power_of_two"):
+        v = _ev(e[2][0], env)
+        p = 1
+        while p < v:
+            p <<= 1
+        return p & M64
+    raise CannotEval(show(e))
+
+
+# ----------------------------------------------------------------------------------------
+# demanded bits: which bits of an input can influence a value (over-approximation)
+# value = list of 64 frozensets (per output bit: set of input bit positions it may depend on)
+# ----------------------------------------------------------------------------------------
+
+def bitdeps(e, inp, width=64):
+    e = norm(e)
+    return _bd(e, norm(inp))
+
+
+ZERO = [frozenset()] * 64
+
+
+def _bd(e, inp):
+    if e == inp:
+        return [frozenset([i]) for i in range(64)]
+    k = e[0]
+    if k == "const":
+        return list(ZERO)
+    if not mentions(e, inp):
+        return list(ZERO)
+    if k == "cast":
+        v = _bd(e[2], inp)
+        w = width_of(e[1])
+        return v[:w] + [frozenset()] * (64 - w)
+    if k == "bin":
+        op, a, b = e[1], e[2], e[3]
+        if op in ("Shl", "Shr") and b[0] == "const" and isinstance(b[1], int):
+            v = _bd(a, inp)
+            c = b[1] & 63
+            if op == "Shl":
+                return [frozenset()] * c + v[: 64 - c]
+            return v[c:] + [frozenset()] * c
+        if op == "BitAnd":
+            for x, y in ((a, b), (b, a)):
+                if y[0] == "const" and isinstance(y[1], int):
+                    v = _bd(x, inp)
+                    return [v[i] if (y[1] >> i) & 1 else frozenset() for i in range(64)]
+        if op in ("BitAnd", "BitOr", "BitXor"):
+            va, vb = _bd(a, inp), _bd(b, inp)
+            return [va[i] | vb[i] for i in range(64)]
+        if op in ("Add", "Sub"):
+            va, vb = _bd(a, inp), _bd(b, inp)
+            out = []
+            acc = frozenset()
+            for i in range(64):
+                acc = acc | va[i] | vb[i]
+                out.append(acc)
+            return out
+        if op == "Mul":
+            for x, y in ((a, b), (b, a)):
+                if y[0] == "const" and isinstance(y[1], int) and y[1] > 0 and (y[1] & (y[1] - 1)) == 0:
+                    v = _bd(x, inp)
+                    c = y[1].bit_length() - 1
+                    return [frozenset()] * c + v[: 64 - c]
+        if op in ("Shl", "Shr"):
+            va, vb = _bd(a, inp), _bd(b, inp)
+            alld = frozenset().union(*va, *vb)
+            return [alld] * 64
+    # unknown: every output bit may depend on every input bit mentioned
+    return [frozenset(range(64))] * 64
+
+
+def deps_union(v):
+    return frozenset().union(*v)
